@@ -24,7 +24,7 @@ func init() {
 		Phases: func(tier string, seed int64) []Phase {
 			return []Phase{{Name: "pipelines", Run: c10Run}}
 		},
-		MinObserved: []string{"pipelines_checked", "requests_after_unbind_sent", "eof_withheld_until_release_observed", "pipelines_after_a_write_fault", "pipelines_with_an_earlier_handler_panic", "unbinds_with_unusual_message_ids"},
+		MinObserved: []string{"pipelines_checked", "requests_after_unbind_sent", "eof_withheld_until_release_observed", "pipelines_after_a_write_fault", "pipelines_with_an_earlier_handler_panic", "unbinds_with_unusual_message_ids", "stops_with_an_unbind_pipeline_in_the_read_buffer"},
 	})
 }
 
@@ -129,6 +129,101 @@ func c10Run(c *Ctx) {
 		}(w)
 	}
 	wg.Wait()
+	for round := 0; round < c.N(6, 60); round++ {
+		c10StopWithBuffered(c, round)
+	}
+}
+
+// c10StopWithBuffered: the Unbind and the requests behind it are already sitting in the connection's read buffer when
+// the server is stopped - they arrived in one segment behind a request whose handler runs on the read loop itself
+// (StartTLS) and is held by the harness. Whether or not the server still reads the Unbind while shutting down: it is
+// not answered, and nothing behind it is dispatched.
+func c10StopWithBuffered(c *Ctx, round int) {
+	var mu sync.Mutex
+	var dispatched []string
+	entered := make(chan struct{})
+	gate := make(chan struct{})
+	var once sync.Once
+	srv, err := startSrv(SrvCfg{}, func(m *gldap.Mux) {
+		m.ExtendedOperation(func(w *gldap.ResponseWriter, req *gldap.Request) {
+			once.Do(func() { close(entered) })
+			<-gate
+			w.Write(req.NewExtendedResponse(gldap.WithResponseCode(gldap.ResultUnwillingToPerform)))
+		}, gldap.ExtendedOperationStartTLS)
+		rec := func(name string) gldap.HandlerFunc {
+			return func(w *gldap.ResponseWriter, req *gldap.Request) {
+				mu.Lock()
+				dispatched = append(dispatched, name)
+				mu.Unlock()
+				replyFor(observe(name, req), w, req)
+			}
+		}
+		m.Bind(rec("bind"))
+		m.Search(rec("search"))
+		m.DefaultRoute(rec("default"))
+		if round%2 == 1 {
+			m.Unbind(func(w *gldap.ResponseWriter, req *gldap.Request) {})
+		}
+	})
+	if err != nil {
+		c.Inconclusive("server start: " + err.Error())
+		return
+	}
+	cl, err := dialRaw(srv.Addr, nil)
+	if err != nil {
+		c.Inconclusive("dial: " + err.Error())
+		srv.StopWithin(patience)
+		return
+	}
+	defer cl.Close()
+	var buf []byte
+	buf = append(buf, sber.Message(1, sber.ExtendedRequest([]byte(sber.OIDStartTLS), nil, false), nil).Encode()...)
+	buf = append(buf, sber.Message(2, sber.UnbindRequest(), nil).Encode()...)
+	buf = append(buf, sber.Message(3, sber.BindRequest(3, []byte("cn=after"), []byte("p")), nil).Encode()...)
+	buf = append(buf, sber.Message(4, sber.Search{Base: []byte("dc=after"), Scope: 2, Filter: sber.PresentFilter("cn"), Attrs: [][]byte{}}.Node(), nil).Encode()...)
+	cl.Send(buf)
+	select {
+	case <-entered:
+	case <-time.After(patience):
+		c.Inconclusive("the inline handler never started")
+		close(gate)
+		srv.StopWithin(patience)
+		return
+	}
+	time.Sleep(10 * time.Millisecond) // the whole segment has been read into the connection's buffer
+	stopped := make(chan struct{})
+	go func() { srv.S.Stop(); close(stopped) }()
+	time.Sleep(time.Duration(50+100*(round%3)) * time.Millisecond)
+	close(gate)
+	got := map[int64]int{}
+	for {
+		m, err := cl.ReadMsg(10 * time.Second)
+		if err != nil {
+			if isTimeout(err) {
+				c.Violate("connection not closed after Unbind", "pipeline buffered behind an inline handler when Stop was called: no EOF within 10s", map[string]any{"round": round})
+			}
+			break
+		}
+		got[m.ID]++
+	}
+	select {
+	case <-stopped:
+	case <-time.After(patience):
+		c.Inconclusive("Stop did not return (see C11)")
+	}
+	mu.Lock()
+	defer mu.Unlock()
+	det := map[string]any{"round": round, "responses_by_message_id": fmt.Sprint(got), "dispatched": dispatched}
+	if got[2] > 0 {
+		c.Violate("a response was sent to the Unbind request", "an Unbind that was sitting in the read buffer when Stop was called got an answer", det)
+	}
+	if got[3] > 0 || got[4] > 0 {
+		c.Violate("a request that followed the Unbind was answered", fmt.Sprintf("requests buffered behind an Unbind when Stop was called were answered: %v", got), det)
+	}
+	if len(dispatched) > 0 {
+		c.Violate("a request that followed the Unbind was dispatched to a handler", fmt.Sprintf("requests buffered behind an Unbind when Stop was called reached handlers: %v", dispatched), det)
+	}
+	c.Count("stops_with_an_unbind_pipeline_in_the_read_buffer", 1)
 }
 
 func c10One(c *Ctx, pki *PKI, srvs map[string]*Srv, cs c10Case, r *Rand, idx int) {
